@@ -77,10 +77,12 @@ func (m *TimerMap) Remove(key string) bool {
 // has already fired or has been stopped. If the timer does not exist, an error is
 // also returned.
 func (m *TimerMap) Reset(key string, timeout time.Duration) (bool, error) {
-	m.timersMtx.RLock()
-	t, ok := m.timers[key]
-	m.timersMtx.RUnlock()
+	// Hold the lock across Stop() and Reset() so that a concurrent Remove() can't
+	// observe the timer while it is stopped but not yet re-armed
+	m.timersMtx.Lock()
+	defer m.timersMtx.Unlock()
 
+	t, ok := m.timers[key]
 	if ok {
 		if t.Stop() {
 			t.Reset(timeout)
